@@ -45,7 +45,7 @@ func (b *vC08ScriptedBuilder) Add(_ context.Context, cd exectypes.CommitData) (e
 		k = b.script[b.pos]
 		b.pos++
 		if k < 0 {
-			return cd, vErr
+			return cd, vErrNext()
 		}
 	}
 	out := cd
